@@ -70,6 +70,10 @@ class Check:
             known = json.load(open(KNOWN)).get("findings", [])
         known_keys = {(k["property"], k["key"]): k for k in known if k.get("status") == "known"}
         os.makedirs(os.path.join(EVID, "replay"), exist_ok=True)
+        if self.only_key is None:
+            for f in os.listdir(os.path.join(EVID, "replay")):
+                if f.startswith(self.pid + "-"):
+                    os.unlink(os.path.join(EVID, "replay", f))
         new, listed = [], []
         seen = set()
         for v in self.viol:
